@@ -1,20 +1,43 @@
 # CPU_OFF and COMMON_ASSUME are injected by props.py
 SPEC = {
     "bins": [
+        # black-box: circl's six KEM packages and three K-PKE packages against the independent reference ref/mlkem
         {"name": "c03", "pkg": "./zz_verif/c03", "run": "^TestC03",
          "configs": [c for c in CPU_OFF if c["name"] in ("default", "noavx2", "purego")],
          "quick_configs": ["default", "noavx2"],
-         "shards": {"quick": 2, "thorough": 16}},
+         "shards": {"quick": 3, "thorough": 16}},
+        # white-box: sweeps of the helper functions of pke/kyber/internal/common over their documented domains
         {"name": "c03wb", "pkg": "./pke/kyber/internal/common", "run": "^TestVC03", "whitebox": True,
          "shards": {"quick": 2, "thorough": 16}},
     ],
-    "rule": "placeholder",
-    "assumptions": COMMON_ASSUME,
+    "rule": "black-box case = (parameter set, 64-byte seed d||z, 32-byte m, ciphertext) resp. (parameter set, key bytes); every case compares circl's bytes "
+            "(ek, dk, ct, K, Decaps(c), K-PKE Encrypt/Decrypt, accept/refuse of key parsing, re-encoding) with the reference zz_verif/ref/mlkem "
+            "(FIPS 203 resp. round-3 Kyber written from the specification; self-tested against NIST ACVP vectors and the round-3 KAT digests). "
+            "non-trivial = decapsulation/decryption of a non-honest ciphertext (bit-flipped, random, compressed-field boundary patterns, ciphertexts steered so that v-s.u sits on a Compress_1 rounding boundary, honest ciphertext of another m), "
+            "parsing of a malformed key (coefficient in [q,4096), corrupted H(ek), wrong length) or of a well-formed variant, keys with unreduced coefficients at the K-PKE level, "
+            "a CBD PRF stream, an NTT boundary polynomial, a four-way sampling call whose lanes finish in different SHAKE128 blocks; distinct by FNV-64 of the case. "
+            "White-box helper sweeps (barrettReduce, toMont, csubq, montReduce over its whole documented domain of 218 169 344 values, Compress_d/Decompress_d for d in {1,4,5,10,11} at all 256 positions, "
+            "Pack/Unpack, Normalize/BarrettReduce, all 65 536 monomial products and all sign-pattern polynomials through NTT/MulHat/InvNTT on the generic and the AVX2 back-end) are complete enumerations "
+            "listed under exhaustive_subdomains; they dominate the evaluation count and are not counted as non-trivial",
+    "assumptions": COMMON_ASSUME + [
+        "golang.org/x/crypto/sha3 (SHA3-256/512, SHAKE128/256) and crypto/aes (KAT DRBG of the self-test) are correct",
+        "the reference ref/mlkem is correct where it is pinned: 78 ACVP FIPS 203 vectors (keyGen, encapsulation, decapsulation incl. rejection) and the three published round-3 PQCkemKAT digests; its direct O(n^2) NTT is cross-checked with schoolbook multiplication",
+        "round-3 Kyber is taken to decode 12-bit key coefficients as integers that are then used modulo q (Decode_12 followed by arithmetic in R_q); FIPS 203 ByteDecode_12 reduces modulo q",
+    ],
     "budget": {"quick": 900, "thorough": 3600},
 }
 
 MANIFEST = {
-    "technique": "placeholder",
-    "text": "placeholder",
-    "note": "placeholder",
+    "technique": "differential property-based testing (rapid) of all six KEM and three K-PKE packages against an independent specification-level reference (FIPS 203 / round-3 Kyber, self-tested on ACVP vectors and KAT digests), "
+                 "plus white-box exhaustive enumeration of the 16/32-bit helper functions and generic-vs-AVX2 differential sweeps, run with AVX2 on, AVX2 off and (thorough) purego",
+    "text": "Generated-input search over (parameter set, seeds d||z, m, ciphertext class, key-byte mutation): ek, dk, ct, K and Decaps(c) of kem/mlkem/mlkem{512,768,1024} and kem/kyber/kyber{512,768,1024} "
+            "(scheme API and typed API, generated keys and keys parsed from bytes) and KeyGen/Encrypt/Decrypt of pke/kyber/kyber* must equal byte for byte the output of a slow, obvious reference written from FIPS 203 "
+            "(with the four round-3 differences behind a flag). Ciphertext classes include compressed-field boundary patterns and ciphertexts steered, using the secret key, so that the polynomial rounded by decryption "
+            "sits exactly on the 832|833 and 2496|2497 boundaries. ML-KEM key parsing must accept exactly the byte strings that pass the FIPS 203 section 7.2/7.3 checks, re-encode accepted well-formed keys identically and "
+            "compute the specified function of the parsed bytes. The finite helper domains named in the property (Barrett/Montgomery reduction, conditional subtraction, Compress_d/Decompress_d, 12-bit packing, CBD bit slicing) "
+            "are enumerated completely against their exact definitions; NTT/InvNTT/MulHat are compared with the defining sums and schoolbook multiplication on all monomial pairs, all +-q sign patterns and boundary polynomials on both "
+            "arithmetic back-ends; the four-way sampler is compared with the scalar one and with SampleNTT, with the class 'lanes finish in different SHAKE128 blocks' required to be populated. "
+            "Exploration plus enumeration is the right level: the transcript domain is astronomically large with an exact per-case oracle, while the helper domains are small enough to enumerate.",
+    "note": "trusts x/crypto/sha3 and the reference where the ACVP/KAT vectors pin it; round-3 behaviour on keys with unreduced coefficients follows the 'decode then work modulo q' reading; "
+            "lazy-reduction overflow inside InvNTT is searched with worst-case sign patterns and 10^5..10^7 random polynomials, not proven absent; arm64 code paths cannot be executed here; never establishes absence for the transcript domain",
 }
